@@ -143,12 +143,19 @@ def run(ctx):
     # ---------------- oracle B: format quotes whatever needs it (both ansi_quotes settings)
     names = [literal_field(s) for s in texts if s] + list(ctx.gen["keyword_words"])
     names += ["a.b", "t1.c1", "s.t.c"]
+    # a reserved word glued to a character that ends a keyword for the lexer but may be a name character for the
+    # formatter's idea of a bare name (@, $, accented letters, digits, _): must be quoted, or read back as one name
+    glued = []
+    for w in ["not", "null", "true", "from", "select", "distinct", "union", "lateral", "case", "in", "is", "order"]:
+        for tail in ["@home", "ícia", "$x", "é", "Āb", "ƿ", "9", "_x", "@", "ñ1"]:
+            glued.append(w + tail)
+    names += glued
     tbase = {pos: base[(pos, "common")] for pos in TEMPLATES if (pos, "common") in base}
     for n in names:
-        positions = list(tbase) if (n in ctx.gen["keyword_words"]) else [rng.choice(list(tbase)) for _ in range(2)]
+        positions = list(tbase) if (n in ctx.gen["keyword_words"] or n in glued) else [rng.choice(list(tbase)) for _ in range(2)]
         for pos in positions:
             for aq in (True, False):
-                if not (n in ctx.gen["keyword_words"]) and rng.random() < 0.5:
+                if not (n in ctx.gen["keyword_words"] or n in glued) and rng.random() < 0.5:
                     continue
                 tree = subst(tbase[pos], MARK, n)
                 f = R.format_raw(tree, ansi_quotes=aq)
